@@ -625,6 +625,14 @@ pub fn node_bases() -> Vec<Grammar> {
         grammar(3, vec![("s", false, Some(star(rf(1)))), ("x", false, Some(cat(vec![tok(0), par(alt(vec![tok(1), tok(2)]))])))]),
         grammar(2, vec![("s", false, Some(rf(1))), ("e", false, Some(alt(vec![cat(vec![rf(1), tok(1), rf(1)]), tok(0)])))]),
         grammar(3, vec![("s", false, Some(cat(vec![rf(1), tok(2)]))), ("x", false, Some(alt(vec![cat(vec![tok(0), rf(1)]), tok(1)])))]),
+        // two left-recursive branches: an operator placed in one of them must not affect the other
+        grammar(
+            3,
+            vec![
+                ("s", false, Some(rf(1))),
+                ("e", false, Some(alt(vec![cat(vec![rf(1), tok(1), rf(1)]), cat(vec![rf(1), tok(2), rf(1)]), tok(0)]))),
+            ],
+        ),
     ]
 }
 
@@ -801,6 +809,23 @@ pub fn choice_tail_family() -> Vec<Grammar> {
     ];
     let lasts = [opt(tok(1)), star(tok(1)), opt(tok(2)), opt(cat(vec![tok(1), tok(0)])), Rx::Paren(None)];
     let mut out = vec![];
+    // an option / loop followed by a mandatory element inside the first alternative, a last alternative that
+    // does not start with the same token, and a rule that continues after the choice
+    for first in [
+        cat(vec![tok(0), opt(tok(1)), tok(0)]),
+        cat(vec![tok(0), star(tok(1)), tok(0)]),
+        cat(vec![tok(0), opt(tok(1)), tok(2)]),
+        cat(vec![tok(0), plus(tok(1)), tok(0)]),
+    ] {
+        for last in [tok(1), tok(2), cat(vec![tok(1), tok(2)])] {
+            for s in [cat(vec![rf(1), tok(2)]), cat(vec![rf(1), tok(0)]), star(par(cat(vec![rf(1), tok(2)])))] {
+                out.push(grammar(
+                    3,
+                    vec![("s", false, Some(s.clone())), ("x", false, Some(cho(vec![first.clone(), last.clone()])))],
+                ));
+            }
+        }
+    }
     for f in &firsts {
         for l in &lasts {
             for ctx in 0..4 {
@@ -845,4 +870,30 @@ pub fn rec_family() -> Vec<Grammar> {
             ],
         ),
     ]
+}
+
+/// SHARED-PART: a rule with a loop / option that is used both by the start rule and by a part rule, so that the
+/// part's end marker reaches the loop only through the follow set of the start rule.
+pub fn shared_part_family() -> Vec<Grammar> {
+    let mut out = vec![];
+    let loops = [star(tok(0)), plus(tok(0)), opt(tok(0)), star(par(cat(vec![tok(0), tok(1)])))];
+    for l in &loops {
+        for xbody in [
+            cat(vec![l.clone(), tok(3)]),
+            cat(vec![tok(3), l.clone(), tok(3)]),
+            cat(vec![tok(3), l.clone()]),
+        ] {
+            for s in [cat(vec![rf(2), tok(2)]), star(par(cat(vec![rf(2), tok(2)]))), rf(2)] {
+                for p in [cat(vec![rf(2), tok(1)]), rf(2), cat(vec![tok(2), rf(2)])] {
+                    let mut g = grammar(
+                        4,
+                        vec![("s", false, Some(s.clone())), ("p", false, Some(p.clone())), ("x", false, Some(xbody.clone()))],
+                    );
+                    g.parts = vec![1];
+                    out.push(g);
+                }
+            }
+        }
+    }
+    out
 }
